@@ -163,6 +163,24 @@ def Entry.contains : Entry C → Nat → Bool
 def listSources (m : List (Entry C)) (t : Nat) : List Nat :=
   (m.filter (·.contains t)).map Entry.src
 
+/-- `ExpansionResult::<CalibrationExpansion>::contains(&CalibrationSource)` (source_map.rs:126-137,
+calibration.rs:237-241): only a `Rewritten` entry, and only by its own `calibration_used` -/
+def Entry.isFrom [DecidableEq C] : Entry C → C → Bool
+  | .unmod _ _, _ => false
+  | .rew _ c' _ _ _, c => decide (c' = c)
+
+/-- `SourceMap::list_sources(&CalibrationSource)` -/
+def listSourcesByCal [DecidableEq C] (m : List (Entry C)) (c : C) : List Nat :=
+  (m.filter (·.isFrom c)).map Entry.src
+
+/-- `Calibrations::expand_with_detail(instruction, &[])` (calibration.rs:377-383) on an expansion tree: the
+new instructions and the detail BEFORE any hoisted instruction is removed (`range = 0..len`). -/
+def expandWithDetail : Node L C → Option (List L × Detail C)
+  | .leaf _ => none
+  | .exp _ _ body =>
+    let b := expBody body 0 0
+    some (b.1, { start := 0, stop := b.1.length, entries := b.2 })
+
 /-- `SourceMap::list_targets(&InstructionIndex)`: the entries (their target locations) whose source
 location equals `s` -/
 def listTargets (m : List (Entry C)) (s : Nat) : List (Entry C) :=
